@@ -260,9 +260,18 @@ def gen_spec(g):
         for j in range(i + 1, n):
             if g.chance(0.5):
                 T[i][j] = g.dy(a=2, k=8)
+    zero_rows = g.chance(0.25)
+    if zero_rows:
+        # every row sums to zero (the diagonal balances the row; dyadic values, so exactly): the all-ones vector
+        # is in the kernel, which is where an iterative solver started from ones breaks down; the spectrum is
+        # still the diagonal, and a permutation similarity keeps W.1 = 0
+        for i in range(n):
+            T[i][i] = -sum(T[i][j] for j in range(i + 1, n))
+        if all(T[i][i] == 0 for i in range(n)):
+            T[0][1], T[0][0] = 1.5, -1.5
     perm = list(range(n))
     g.shuffle(perm)
-    return {"kind": "spec", "n": n, "T": T, "perm": perm, "fmt": g.choice(["dense", "csr", "csc"]),
+    return {"kind": "spec", "n": n, "T": T, "perm": perm, "fmt": g.choice(["dense", "csr", "csc"]), "zero_rows": zero_rows,
             "lr": g.choice([1.0, 0.5, 0.25, 0.75, 0.125])}
 
 
